@@ -21,7 +21,8 @@ SPECIAL_EPOCHS = [
     dt.datetime(1999, 12, 31, 23, 59, 59), dt.datetime(2016, 12, 31, 23, 59, 59),
 ]
 BASE_HOST = {"epoch_ns": 1_700_000_000 * 10**9, "tick_ns": 1_000_000, "jumps": [], "TZ": "UTC", "LANG": "C.UTF-8", "LC_ALL": None,
-             "LANGUAGE": None, "LOG_LEVEL": None, "profiler": False, "hashseed": 0, "aslr": False, "random_seed": 0}
+             "LANGUAGE": None, "LOG_LEVEL": None, "profiler": False, "hashseed": 0, "aslr": False, "random_seed": 0,
+             "user": None, "hostname": None, "columns": None, "umask": None}
 
 
 def case_seed(master, prop, index):
@@ -63,6 +64,12 @@ def gen_host(rng, swarm=None):
         h["LANGUAGE"] = rng.choice(LANGUAGES)
         h["LOG_LEVEL"] = rng.choice(LOG_LEVELS)
         h["profiler"] = rng.random() < 0.08
+        # who and where: user / host names, terminal geometry, umask (nothing a result may depend on)
+        if rng.random() < 0.5:
+            h["user"] = rng.choice(["alice", "root", "tax-bot", "Jürgen", "a b"])
+            h["hostname"] = rng.choice(["laptop", "build-7.example.org", "localhost"])
+            h["columns"] = rng.choice([None, "40", "80", "213"])
+            h["umask"] = rng.choice([None, 0o022, 0o002, 0o077, 0o027])
     if swarm.get("hash", True):
         h["hashseed"] = rng.choice([0, 1, rng.randint(2, 2**32 - 1), rng.randint(2, 2**32 - 1)])
         h["aslr"] = rng.random() < 0.3
@@ -151,7 +158,7 @@ def gen_options(rng, world, country, facts, swarm=None, allow_neg=False):
     listed = [s["name"] for s in world["sheets"]]
     opts["asset"] = rng.choice(listed) if rng.random() < 0.15 else None
     opts["prefix"] = rng.choice(["", "", "", "test_", "2024-", "a b_"])
-    opts["outdir"] = rng.choice(["out", "out", "out/", "nested/x/y", "ABS", None, "out.d"])
+    opts["outdir"] = rng.choice(["out", "out", "out/", "nested/x/y", "ABS", None, "out.d", "INPUTDIR", "."])
     opts["path_style"] = rng.choice(["rel", "rel", "abs", "dot"])
     opts["files_in"] = rng.choice(["", "", "inputs/", "cfg dir/"])
     env = {}
